@@ -6,6 +6,7 @@ import A5.Model.Serialization
 import A5.Model.CellInfo
 import A5.Model.Compact
 import A5.Model.Hex
+import A5.Model.Hilbert
 
 namespace A5.Driver
 open A5
@@ -103,6 +104,23 @@ def runOp (toks : List String) : String :=
     | some s => ofPyM (fun v => s!"ok {v}") (hexToU64 s)
     | none => "bad-op"
   | ["unhex"] => ofPyM (fun v => s!"ok {v}") (hexToU64 "")
+  | ["s2a", s, n, o] =>
+    match s.toNat?, n.toNat? with
+    | some s, some n =>
+      ofPyM (fun (a : Hilbert.Anchor) =>
+        s!"ok {a.k} {a.i} {a.j} {if a.flips.1 then -1 else (1 : Int)} {if a.flips.2 then -1 else (1 : Int)}") (Hilbert.sToAnchor s n o)
+    | _, _ => "bad-op"
+  | ["ij2s", ib, jb, n, o] =>
+    match ib.toNat?, jb.toNat?, n.toNat? with
+    | some ib, some jb, some n =>
+      s!"ok {Hilbert.ijToS (Float.ofBits (UInt64.ofNat ib)) (Float.ofBits (UInt64.ofNat jb)) n o}"
+    | _, _, _ => "bad-op"
+  | ["q2kj", d, fx, fy] =>
+    match d.toNat?, fx.toInt?, fy.toInt? with
+    | some d, some fx, some fy =>
+      let r := Hilbert.kjOf d (fx == -1, fy == -1)
+      s!"ok {r.1} {r.2}"
+    | _, _, _ => "bad-op"
   | _ => "bad-op"
 
 def runLine (line : String) : String :=
